@@ -206,6 +206,12 @@ func TestClean(t *testing.T) {
 				}
 				c.Probe("one Signer object used for several versions")
 			}
+			if c.Chance("caseCollision", 1, 10) {
+				l.Collide = c.Int("caseCollision.n", 1, 3)
+				c.Probe("header map with keys differing only in letter case")
+				caseCollision(c, l)
+				return
+			}
 			if pi := c.Guard("publisher.Sign", func() { pub, err = l.Sign() }); pi != nil {
 				c.CheckTotal("publisher.Sign", 0, pi, 0)
 			}
@@ -295,6 +301,68 @@ func TestClean(t *testing.T) {
 			c.Sig("%s/%s/rs%d/m%d/rf%v", l.Version, l.Leaf.Name, l.RS, plan.Mode, wp.ReaderFrom)
 		})
 	})
+}
+
+// caseCollision: a header map whose keys differ only in letter case. The library
+// may refuse it; whatever it agrees to sign and write must read back and verify,
+// with one verdict before and after the round trip. The flow is repeated because
+// the order in which Go visits the colliding keys differs from call to call.
+func caseCollision(c *core.Ctx, l *gen.LSXG) {
+	net := newCertNet(c)
+	net.blobs[l.CertURL] = gen.ChainBytes(l.Leaf, []byte("ocsp-"+l.Leaf.Name))
+	const rounds = 8
+	refused, good, bad := 0, 0, 0
+	var first string
+	for i := 0; i < rounds; i++ {
+		var pub *signedexchange.Exchange
+		var err error
+		if pi := c.Guard("publisher.Sign", func() { pub, err = l.Sign() }); pi != nil {
+			c.CheckTotal("publisher.Sign", 0, pi, 0)
+		}
+		if err != nil {
+			refused++
+			continue
+		}
+		rd, rerr, pi, _ := readFile(c, l.File, core.ReaderPlan{ErrAt: -1})
+		if pi != nil {
+			c.CheckTotal("ReadExchange", len(l.File), pi, 0)
+		}
+		if !c.Oracle("C02") {
+			continue
+		}
+		if rerr != nil {
+			c.Violation("read-error", "ReadExchange/case-collision", "reader rejected the writer's output: %v", rerr)
+		}
+		for j, e := range []*signedexchange.Exchange{pub, rd} {
+			v := verify(c, e, time.Unix(l.Date, 0), net)
+			if v.ok && bytes.Equal(v.payload, l.Payload) {
+				good++
+			} else {
+				bad++
+				if first == "" {
+					first = fmt.Sprintf("round %d, %s the round trip", i, []string{"before", "after"}[j])
+				}
+			}
+		}
+	}
+	c.Event("case-colliding header keys: refused %d of %d, verified %d, rejected %d", refused, rounds, good, bad)
+	if c.Oracle("C02") {
+		if refused != 0 && refused != rounds {
+			c.Violation("refusal-depends-on-map-order", "publisher/case-collision", "the same header map was refused %d times and signed %d times", refused, rounds-refused)
+		}
+		if bad > 0 && good > 0 {
+			c.Violation("verdict-depends-on-map-order", "Exchange.Verify/case-collision", "an exchange the library signed and wrote verified %d times and was rejected %d times (first: %s)", good, bad, first)
+		}
+		if bad > 0 {
+			c.Violation("verify-failed", "Exchange.Verify/case-collision", "an exchange the library signed and wrote does not verify (%s)", first)
+		}
+	}
+	if refused == rounds {
+		c.Outcome("nt:refused-case-collision")
+	} else {
+		c.Outcome("nt:signed-case-collision")
+	}
+	c.Sig("collide/%s/%d/%v", l.Version, l.Collide, refused == rounds)
 }
 
 func checkReadBack(c *core.Ctx, rd *signedexchange.Exchange, l *gen.LSXG, site string) {
@@ -760,7 +828,12 @@ func tamper(c *core.Ctx, w *world, l *gen.LSXG) (*signedexchange.Exchange, strin
 			k := ks[c.Pick("field.hdr", len(ks))]
 			e.ResponseHeaders[k] = []string{e.ResponseHeaders[k][0] + "x"}
 		case "header-add":
-			e.ResponseHeaders.Add(c.PickStr("field.newhdr", "X-Injected", "Content-Security-Policy", "Link"), "evil")
+			// (names include the one header the format carries outside the signed map)
+			if nh := c.PickStr("field.newhdr", "X-Injected", "Content-Security-Policy", "Link", "Signature", "signature", "SIGNATURE", "Digest2", "Content-Encoding2"); c.Bool("field.newhdrDirect") {
+				e.ResponseHeaders[nh] = append(e.ResponseHeaders[nh], "evil")
+			} else {
+				e.ResponseHeaders.Add(nh, "evil")
+			}
 		case "header-remove":
 			ks := core.SortedKeys(map[string][]string(e.ResponseHeaders))
 			delete(e.ResponseHeaders, ks[c.Pick("field.hdr", len(ks))])
@@ -775,7 +848,10 @@ func tamper(c *core.Ctx, w *world, l *gen.LSXG) (*signedexchange.Exchange, strin
 				e.RequestMethod = "GET"
 			}
 		case "req-header-add":
-			e.RequestHeaders.Add("X-Req-Injected", "1")
+			if e.RequestHeaders == nil {
+				e.RequestHeaders = http.Header{}
+			}
+			e.RequestHeaders.Add(c.PickStr("field.newreqhdr", "X-Req-Injected", "Signature", "signature", "Accept"), "1")
 		case "payload-bit":
 			if len(e.Payload) == 0 {
 				e.Payload = []byte{0}
